@@ -12,7 +12,7 @@ use serde_json::{json, Value};
 pub const EXHAUSTIVE_PAIRS: usize = 4;
 
 pub fn runs_c08(t: Tier) -> usize {
-    EXHAUSTIVE_PAIRS + t.pick(1500, 60000) + C08_PAR
+    EXHAUSTIVE_PAIRS + t.pick(1500, 60000) + c08_par(t)
 }
 
 fn official(i: usize, p: &mut Prng) -> ([u8; 16], [u8; 16]) {
@@ -100,9 +100,11 @@ fn exhaustive(p: &mut Prng, pair: usize, sink: &mut Sink) {
     run_history(sink, &k, &iv, &[0, 0, 1], false);
 }
 
-const C08_PAR: usize = 12;
+fn c08_par(t: Tier) -> usize {
+    t.pick(12, 240)
+}
 pub fn isolated_c08(t: Tier, i: usize) -> bool {
-    i >= runs_c08(t) - C08_PAR
+    i >= runs_c08(t) - c08_par(t)
 }
 
 /// In a worker process of its own: the FIRST requests of two generators are made by two simulated
